@@ -43,7 +43,7 @@ WBad == 7
 Prefix(w) == CASE w \in {1, 3} -> 1 [] w \in {2, 4} -> 2 [] OTHER -> 0
 WantPrefix == IF Comp THEN 2 ELSE 1
 MaxAmt == IF Comp THEN 2048 ELSE 32
-InRange(a) == a >= 1 /\ a <= MaxAmt
+InRange(a) == a >= 1 /\ a <= MaxAmt      \* = NewMessageOK(TRUE, <<a, 0>>, Comp), see the ASSUME in DepositFlowMC
 
 VARIABLES produced,  \* ghost: the partial-signature tokens that exist (made by a sign command or by a Byzantine operator)
           disk,      \* per operator, per output directory: the deposit-data files, a set of [a, es: sequence of deposits]
@@ -52,6 +52,27 @@ vars == <<produced, disk, cmd>>
 
 Tok(sv, k, v, w, a) == [sv |-> sv, k |-> k, v |-> v, w |-> w, a |-> a]
 SeqToSet(s) == {s[j] : j \in DOMAIN s}
+
+---------------------------------------------------------------------------------------------------
+(* eth2util/deposit, the functions without state: NewMessage (the message `create cluster` / `dkg` sign:
+   the credentials are the withdrawal ADDRESS with the prefix of the compounding flag), MaxDepositAmount,
+   VerifyDepositAmounts (every partial amount within [1 ETH, maximum], together at least 32 ETH; none given: the default),
+   DedupAmounts (distinct, ascending). *)
+\* TLC's integers have 32 bits: an amount of g Gwei is the pair <<e, d>> with g = e * 10^9 + d, |d| < 5 * 10^8
+GE(x, e) == x[1] > e \/ (x[1] = e /\ x[2] >= 0)
+LE(x, e) == x[1] < e \/ (x[1] = e /\ x[2] <= 0)
+Less(x, y) == x[1] < y[1] \/ (x[1] = y[1] /\ x[2] < y[2])
+MaxEth(comp) == IF comp THEN 2048 ELSE 32
+NewMessageOK(addrValid, g, comp) == addrValid /\ GE(g, 1) /\ LE(g, MaxEth(comp))
+CredsOfAddr(addr, comp) == CASE addr = "A" -> (IF comp THEN 2 ELSE 1) [] addr = "B" -> (IF comp THEN 4 ELSE 3) [] OTHER -> 0
+RECURSIVE SumPair(_)
+SumPair(s) == IF s = <<>> THEN <<0, 0>> ELSE LET r == SumPair(Tail(s)) IN <<Head(s)[1] + r[1], Head(s)[2] + r[2]>>
+VerifyAmountsOK(amts, comp) == amts = <<>> \/ ((\A j \in DOMAIN amts : GE(amts[j], 1) /\ LE(amts[j], MaxEth(comp))) /\ GE(SumPair(amts), 32))
+RECURSIVE AscSeq(_)
+AscSeq(X) == IF X = {} THEN <<>> ELSE LET m == CHOOSE x \in X : \A y \in X : x <= y IN <<m>> \o AscSeq(X \ {m})
+RECURSIVE AscPairs(_)
+AscPairs(X) == IF X = {} THEN <<>> ELSE LET m == CHOOSE x \in X : \A y \in X \ {x} : Less(x, y) IN <<m>> \o AscPairs(X \ {m})
+Dedup(amts) == AscPairs({amts[j] : j \in DOMAIN amts})
 
 ---------------------------------------------------------------------------------------------------
 (* deposit sign *)
